@@ -242,6 +242,14 @@ def run(ctx):
                     else:
                         okv = np.asarray(G).shape == W.value.shape and np.asarray(G).tobytes() == W.value.tobytes()
                         ctx.check(okv, 'other-forms:values', cid, **d)
+                        # the columns a two-part key addresses, asked of NumPy itself on an index vector (1-D and 2-D results)
+                        if isinstance(key, tuple) and len(key) == 2 and not any(k is None for k in key):
+                            cw = core.attempt(lambda: np.arange(D)[key[1]])
+                            if not cw.raised and np.ndim(cw.value) <= 1:
+                                cols_ = [int(c) for c in np.atleast_1d(cw.value)]
+                                ctx.counters['chk:other-forms:by-index-vector'] += 1
+                                ctx.check(zoo.per_channel(G) == [recs[c] for c in cols_], 'other-forms:metadata', cid,
+                                          got=list(G.channels), want=[names[c] for c in cols_], ndim=int(G.ndim), **d)
                         if G.ndim == 2:
                             ncol = G.shape[1]
                             # identify the columns by value (columns of A are distinct by construction when N >= 2)
